@@ -141,6 +141,18 @@ fn interpret(c: &IterCase, strict_only: bool, st: &mut Stats) -> Result<Outcome,
     let mid = |cands: &[Cand], yielded: &[Mv]| -> bool {
         cands.iter().any(|cd| cd.r.iter().any(|m| m.promo.is_some() && yielded.iter().any(|y| y.from == m.from && y.to == m.to && y.promo.is_some())))
     };
+    // the (source, destination) pairs whose promotions are partially emitted
+    let in_progress = |cands: &[Cand], yielded: &[Mv]| -> Vec<(u8, u8)> {
+        let mut v: Vec<(u8, u8)> = vec![];
+        for cd in cands {
+            for m in &cd.r {
+                if m.promo.is_some() && yielded.iter().any(|y| y.from == m.from && y.to == m.to && y.promo.is_some()) && !v.contains(&(m.from, m.to)) {
+                    v.push((m.from, m.to));
+                }
+            }
+        }
+        v
+    };
     macro_rules! diverge {
         ($($arg:tt)*) => {{
             let d = format!($($arg)*);
@@ -221,14 +233,18 @@ fn interpret(c: &IterCase, strict_only: bool, st: &mut Stats) -> Result<Outcome,
                 }
             }
             Op::Remove(k, raw) => {
-                if mid(&cands, &yielded) {
+                let m = mask_of(*k, *raw, &pos, mask);
+                // recorded finding (ii) concerns the destination whose promotions are being handed
+                // out: removing other destinations mid-way is ordinary and fully checked
+                if in_progress(&cands, &yielded).iter().any(|(_, to)| m >> to & 1 == 1) {
                     if c.avoid {
                         continue;
                     }
                     tainted_mid = true;
                     classes.push("removal issued mid-promotion");
+                } else if mid(&cands, &yielded) {
+                    classes.push("removal of other destinations while a promotion destination is partially emitted");
                 }
-                let m = mask_of(*k, *raw, &pos, mask);
                 it.remove(BitBoard::from_u64(m));
                 for cd in cands.iter_mut() {
                     cd.r.retain(|x| m >> x.to & 1 == 0);
@@ -246,12 +262,14 @@ fn interpret(c: &IterCase, strict_only: bool, st: &mut Stats) -> Result<Outcome,
                     _ if !all.is_empty() && sel % 2 == 0 => all[(*idx as usize * all.len()) >> 16],
                     _ => Mv { from: (*idx % 64) as u8, to: (*idx / 64 % 64) as u8, promo: if idx & 0x8000 != 0 { Some(P::Queen) } else { None } },
                 };
-                if mid(&cands, &yielded) {
+                if in_progress(&cands, &yielded).contains(&(mv.from, mv.to)) {
                     if c.avoid {
                         continue;
                     }
                     tainted_mid = true;
                     classes.push("removal issued mid-promotion");
+                } else if mid(&cands, &yielded) {
+                    classes.push("remove_move of another move while a promotion destination is partially emitted");
                 }
                 // recorded finding (i): remove_move ignores the promotion piece of its argument, so any
                 // argument whose source and destination are those of pending promotions (whatever its
